@@ -36,6 +36,12 @@ def gen_cases(tier, rng):
             cases.append(mk(a, T["nan-first"], sizes))
             if thorough or i % 2 == 0 or a in MEAN_FAM + VAR_FAM:
                 cases.append(mk(a, T["nan-first"], sizes, filt=1))
+            if a.startswith("gs.") and (thorough or i % 3 == 0):
+                # grouper = a streaming series of the unfiltered frame, built before / after the grouped frame
+                for gsrc in ("early", "late"):
+                    c = mk(a, T["nan-first"], sizes, filt=1)
+                    c["gsrc"] = gsrc
+                    cases.append(c)
     # 2. exhaustive on the 6-row vanishing/re-entering key table for the keyed aggregations
     sp6 = dfc.all_splits(len(T["vanish"]))
     for i, sizes in enumerate(sp6):
@@ -94,7 +100,10 @@ def random_case(rng, aggs=None):
     a = rng.choice(aggs or ci.AGG_IDS)
     dense = all(v is not None for r in rows for v in r)
     dtype = "int" if dense and rows and rng.random() < 0.3 else "float"
-    return mk(a, rows, sizes, filt=filt, dtype=dtype)
+    c = mk(a, rows, sizes, filt=filt, dtype=dtype)
+    if a.startswith("gs.") and rng.random() < 0.5:
+        c["gsrc"] = rng.choice(["early", "late"])
+    return c
 
 
 def nontrivial(case):
@@ -257,7 +266,7 @@ def run(prop, tier, seed, replay=None):
 
     # ---- coverage
     hist = {}
-    feat = {"empty_first": 0, "empty_middle": 0, "empty_last": 0, "filter": 0, "int_dtype": 0, "empty_example": 0,
+    feat = {"empty_first": 0, "empty_middle": 0, "empty_last": 0, "filter": 0, "grouper_from_unfiltered_frame": 0, "int_dtype": 0, "empty_example": 0,
             "nan_cells": 0, "nan_keys": 0}
     nontriv = set()
     for c in cases:
@@ -268,6 +277,7 @@ def run(prop, tier, seed, replay=None):
         feat["empty_last"] += bool(len(sz) > 1 and sz[-1] == 0)
         feat["empty_middle"] += bool(any(s == 0 for s in sz[1:-1]))
         feat["filter"] += c.get("filt") is not None
+        feat["grouper_from_unfiltered_frame"] += c.get("gsrc") is not None
         feat["int_dtype"] += c.get("dtype") == "int"
         feat["empty_example"] += c.get("ex") == "empty"
         feat["nan_cells"] += any(r[0] is None or r[1] is None for r in c["rows"])
